@@ -429,7 +429,8 @@ def known_findings(prop):
 class Report:
     """Collects what a check found; prints the contract lines; writes evidence."""
 
-    def __init__(self, prop, tier, seed):
+    def __init__(self, prop, tier, seed, keep_replays=False):
+        """keep_replays: a --replay run must not delete the replay files of the previous run (it is reading one of them)."""
         self.prop, self.tier, self.seed = prop, tier, seed
         self.t0 = time.time()
         self.violations = []      # (replay path, suffix)
@@ -439,8 +440,12 @@ class Report:
         self.assumptions = []
         self.nreplay = 0
         os.makedirs(REPLAY, exist_ok=True)
-        for f in glob.glob(os.path.join(REPLAY, '%s-*.json' % prop)):
-            os.unlink(f)
+        if keep_replays:
+            # number new replay files after the existing ones
+            self.nreplay = len(glob.glob(os.path.join(REPLAY, '%s-*.json' % prop)))
+        else:
+            for f in glob.glob(os.path.join(REPLAY, '%s-*.json' % prop)):
+                os.unlink(f)
 
     def replay_file(self, payload):
         self.nreplay += 1
